@@ -165,6 +165,13 @@ def template_def(rng, prof):
                  T("j", [tr(["d"], None, [["vj", lit(6)]])], join="all"), T("r", [tr(["d"], None, [["vr", lit(7)]])]),
                  T("d", join="all", input=[["a", ctx("vp1")], ["b", ctx("vq2")], ["c", ctx("vr")]])]
         feat = "tpl_nested_joins"
+    elif k == 18:  # a fork out of a loop into a task that has another inbound transition (a split)
+        m = rng.randint(1, 2)
+        tasks = [T("i", [tr(["a"], fn("succeeded"))]),
+                 T("a", [tr(["b"], fn("succeeded"), [["n", op("add", ctx("n"), lit(1))]])]),
+                 T("b", [tr(["a"], op("and", fn("succeeded"), op("lt", ctx("n"), lit(m + 1)))), tr(["s"], fn("succeeded"))]),
+                 T("c", [tr(["s"], fn("succeeded"))]), T("s")]
+        feat = "tpl_loop_fork_split"
     else:         # two publish-only transitions and a noop ending
         tasks = [T("a", [tr(["b", "c"])]), T("b", [tr(["noop"], None, [["x", lit(1)]])]),
                  T("c", [tr(["continue"], None, [["v1", fn("result")]]), tr(["continue"], None, [["v2", lit(7)]])])]
